@@ -40,6 +40,8 @@ import (
 	"verifharness/hx"
 )
 
+var recoverMode bool
+
 var (
 	logger     = zap.NewNop()
 	identifier = spectypes.NewMsgID(testingutils.TestingSSVDomainType, testingutils.TestingValidatorPubKey[:], spectypes.BNRoleAttester)
@@ -547,20 +549,50 @@ func (nd *node) timeout() []*specqbft.SignedMessage {
 		nd.lines = append(nd.lines, fmt.Sprintf("CTIMEOUT %d %d", uint64(nd.height), r))
 		ev := &ssvtypes.EventMsg{Type: ssvtypes.Timeout}
 		ev.Data, _ = json.Marshal(&ssvtypes.TimeoutData{Height: nd.height, Round: specqbft.Round(r)})
+		could := !s.Decided && nd.ctrl.StoredInstances.FindInstance(nd.height).CanProcessMessages()
 		err := nd.ctrl.OnTimeout(logger, *ev)
 		nd.lines = append(nd.lines, fmt.Sprintf("OBS timeout %d", b2i(err == nil)))
 		out := nd.obsOuts(false)
 		nd.obsState()
+		nd.checkTimeout(could, r, err, out)
 		return out
 	}
 	nd.lines = append(nd.lines, "TIMEOUT")
+	before := uint64(nd.inst.State.Round)
+	could := nd.inst.CanProcessMessages()
 	err := nd.inst.UponRoundTimeout(logger)
 	nd.lines = append(nd.lines, fmt.Sprintf("OBS timeout %d", b2i(err == nil)))
 	out := nd.obsOuts(false)
 	nd.obsState()
+	nd.checkTimeout(could, before, err, out)
 	rerr := nd.ref.UponRoundTimeout()
 	nd.compareRef("timeout", err, rerr, out, nd.inst.State.Decided, nd.ref.State.Decided, nd.inst.State.DecidedValue, nd.ref.State.DecidedValue)
 	return out
+}
+
+// checkTimeout is the C07 monitor for the timeout rule: before the cut-off a timeout moves the operator
+// to the next round, clears the accepted proposal and announces the new round.
+func (nd *node) checkTimeout(could bool, before uint64, err error, out []*specqbft.SignedMessage) {
+	if !could {
+		return
+	}
+	s := nd.state()
+	if err != nil {
+		nd.violf("c07", "timeout before the cut-off returned an error: %v", err)
+		return
+	}
+	if uint64(s.Round) != before+1 || s.ProposalAcceptedForCurrentRound != nil {
+		nd.violf("c07", "after a timeout in round %d the operator is in round %d (accepted proposal cleared: %v)", before, uint64(s.Round), s.ProposalAcceptedForCurrentRound == nil)
+	}
+	ok := false
+	for _, m := range out {
+		if m.Message.MsgType == specqbft.RoundChangeMsgType && uint64(m.Message.Round) == before+1 && len(m.Signers) == 1 && m.Signers[0] == nd.id {
+			ok = true
+		}
+	}
+	if !ok {
+		nd.violf("c07", "no round-change for round %d was broadcast after the timeout", before+1)
+	}
 }
 
 func (nd *node) compact() {
@@ -582,17 +614,18 @@ type pending struct {
 }
 
 type sim struct {
-	w      *world
-	r      *hx.Rand
-	nodes  map[spectypes.OperatorID]*node
-	byz    map[spectypes.OperatorID]bool
-	honest []spectypes.OperatorID
-	queue  []pending
-	seen   []*specqbft.SignedMessage // everything broadcast so far, for replays / justifications
-	height specqbft.Height
-	level  string
-	mutAny bool // mutate with any operator's key (single-instance conformance, C06) instead of byz keys only
-	stats  map[string]int
+	w          *world
+	r          *hx.Rand
+	nodes      map[spectypes.OperatorID]*node
+	byz        map[spectypes.OperatorID]bool
+	honest     []spectypes.OperatorID
+	queue      []pending
+	seen       []*specqbft.SignedMessage // everything broadcast so far, for replays / justifications
+	honestSent []*specqbft.SignedMessage // what correct operators broadcast, in order
+	height     specqbft.Height
+	level      string
+	mutAny     bool // mutate with any operator's key (single-instance conformance, C06) instead of byz keys only
+	stats      map[string]int
 }
 
 func (s *sim) sign(id spectypes.OperatorID, msg *specqbft.Message, full []byte) *specqbft.SignedMessage {
@@ -752,6 +785,7 @@ func (s *sim) mutate(orig *specqbft.SignedMessage, byzID spectypes.OperatorID) *
 func (s *sim) broadcast(from spectypes.OperatorID, ms []*specqbft.SignedMessage) {
 	for _, m := range ms {
 		s.seen = append(s.seen, m)
+		s.honestSent = append(s.honestSent, m)
 		for _, id := range s.honest {
 			if id != from {
 				s.queue = append(s.queue, pending{m: m, to: id})
@@ -835,6 +869,93 @@ func (s *sim) run(steps int) {
 	}
 }
 
+// recoverPhase runs the explicit timely continuation: Byzantine operators go silent, everything the
+// correct operators broadcast is delivered to all of them in FIFO order, and whenever the network is
+// quiet every undecided correct operator times out.  Returns the number of timeout phases used, or -1
+// when not everybody decided within maxPhases.  (Exploration: one particular continuation failing to
+// decide does not refute the existential claim of C07; it is counted, not reported as a violation.)
+func (s *sim) recoverPhase(maxPhases int) int {
+	// Messages are delayed, not lost: the continuation first delivers everything a correct operator has
+	// broadcast so far (in order, to every correct operator); whatever the adversary had in flight is gone.
+	s.queue = nil
+	for _, m := range s.honestSent {
+		for _, id := range s.honest {
+			s.queue = append(s.queue, pending{m: m, to: id})
+		}
+	}
+	allDecided := func() bool {
+		for _, id := range s.honest {
+			st := s.nodes[id].state()
+			if st == nil || !st.Decided {
+				return false
+			}
+		}
+		return true
+	}
+	maxRound := func() uint64 {
+		m := uint64(0)
+		for _, id := range s.honest {
+			if st := s.nodes[id].state(); st != nil && uint64(st.Round) > m && uint64(st.Round) < 1<<32 {
+				m = uint64(st.Round)
+			}
+		}
+		return m
+	}
+	start := maxRound()
+	for guard2 := 0; guard2 < 200; guard2++ {
+		for guard := 0; len(s.queue) > 0 && guard < 5000; guard++ {
+			// The continuation chooses the order: the leader's proposal justification uses the FullData of
+			// the round-change that completes the quorum, so round-changes carrying a prepared value are
+			// delivered after the others (everything else stays FIFO).
+			k, best := 0, 3
+			for i, p := range s.queue {
+				pr := 0
+				if p.m.Message.MsgType == specqbft.RoundChangeMsgType {
+					pr = 1
+					if p.m.Message.RoundChangePrepared() {
+						pr = 2
+					}
+				}
+				if pr < best {
+					k, best = i, pr
+					if pr == 0 {
+						break
+					}
+				}
+			}
+			p := s.queue[k]
+			s.queue = append(s.queue[:k:k], s.queue[k+1:]...)
+			s.broadcast(p.to, s.nodes[p.to].deliver(p.m))
+		}
+		if os.Getenv("HX_DEBUG") != "" {
+			fmt.Fprintf(os.Stderr, "recover: iter=%d queue=%d allDecided=%v maxRound=%d start=%d\n", guard2, len(s.queue), allDecided(), maxRound(), start)
+		}
+		if allDecided() {
+			if maxRound() < start { // UponDecided may rewind the round to the certificate's round
+				return 0
+			}
+			return int(maxRound() - start)
+		}
+		if maxRound() >= start+uint64(maxPhases) {
+			break
+		}
+		// timers: the operators in the lowest round expire first; when all undecided operators share a
+		// round, they all expire
+		lo := uint64(1 << 62)
+		for _, id := range s.honest {
+			if st := s.nodes[id].state(); st != nil && !st.Decided && uint64(st.Round) < lo {
+				lo = uint64(st.Round)
+			}
+		}
+		for _, id := range s.honest {
+			if st := s.nodes[id].state(); st != nil && !st.Decided && uint64(st.Round) == lo {
+				s.broadcast(id, s.nodes[id].timeout())
+			}
+		}
+	}
+	return -1
+}
+
 func newWorld(size int) *world {
 	var ks *testingutils.TestKeySet
 	if size == 7 {
@@ -878,6 +999,16 @@ func oneRun(out *hx.Out, w *world, seed, c uint64, level string, nbyz int, mutAn
 			st = 40 + r.Intn(160)
 		}
 		s.run(st)
+		if recoverMode {
+			f := (size - 1) / 3
+			used := s.recoverPhase(f + 3)
+			if used < 0 {
+				out.Count("recover-not-decided-within-f+3")
+				s.nodes[s.honest[0]].lines = append(s.nodes[s.honest[0]].lines, "# c07 exploration: the FIFO timely continuation did not decide everywhere within f+3 timeout phases")
+			} else {
+				out.Count(fmt.Sprintf("recover-decided-after-%d-phases", used))
+			}
+		}
 		// agreement monitor over the whole run (C01)
 		var agree []string
 		var first *node
@@ -911,8 +1042,8 @@ func oneRun(out *hx.Out, w *world, seed, c uint64, level string, nbyz int, mutAn
 		out.Count(fmt.Sprintf("runs-decided-%d-of-%d", decs, len(s.honest)))
 		for _, id := range s.honest {
 			nd := s.nodes[id]
-			out.Case("net seed=%d run=%d size=%d level=%s nbyz=%d mut=%d steps=%d byz=%v node=%d height=%d maxround=%d decided=%d",
-				seed, c, size, level, nbyz, b2i(mutAny), steps, keys(s.byz), id, uint64(s.height), maxRound, decs)
+			out.Case("net seed=%d run=%d size=%d level=%s nbyz=%d mut=%d steps=%d recover=%d byz=%v node=%d height=%d maxround=%d decided=%d",
+				seed, c, size, level, nbyz, b2i(mutAny), steps, b2i(recoverMode), keys(s.byz), id, uint64(s.height), maxRound, decs)
 			for _, l := range nd.lines {
 				writeLine(out, l)
 			}
@@ -1204,6 +1335,8 @@ func replay(out *hx.Out, path string) {
 				mut = kv[1] == "1"
 			case "steps":
 				steps, _ = strconv.Atoi(kv[1])
+			case "recover":
+				recoverMode = kv[1] == "1"
 			}
 		}
 		key := fmt.Sprintf("%d/%d/%d/%s/%d/%v/%d", seed, run, size, level, nbyz, mut, steps)
@@ -1243,6 +1376,7 @@ func main() {
 	nbyz := fs.Int("byz", -1, "number of Byzantine operators (-1: random 0..f)")
 	mut := fs.Bool("mut", false, "forge with any operator's key (single-instance conformance)")
 	steps := fs.Int("steps", 0, "scheduler steps per run (0: random 40..200)")
+	fs.BoolVar(&recoverMode, "recover", false, "after the adversarial prefix run the timely continuation (C07 exploration)")
 	_ = fs.Parse(os.Args[2:])
 	out := hx.NewOut()
 	defer out.Close()
